@@ -4,16 +4,18 @@ import glob, json, os, re, time
 import vlib
 
 TARGETS = ["Base/Num.vo", "C14/ER.vo", "C14/Model.vo", "C14/Spec.vo", "C14/ProofsER.vo", "C14/Corr.vo",
-           "C14/ProofsCont.vo", "C14/ProofsDisc.vo", "C14/ProofsNorm.vo", "C14/ProofsCdf.vo", "C14/ProofsCdf2.vo",
+           "C14/ProofsCont.vo", "C14/ProofsDisc.vo", "C14/ProofsNorm.vo", "C14/ProofsCdf.vo", "C14/ProofsCdf2.vo", "C14/ProofsNorm2.vo",
            "C14/ProofsRegress.vo", "C14/VModel.vo", "C14/ProofsVec.vo", "C14/Props.vo"]
 PROPS = ["C14/Props.v"]
 PARTIAL = ("Theorems are over exact real arithmetic extended by +Inf/-Inf/NaN (coq/C14/ER.v); rounding, overflow and "
            "signed zeros of binary64 are not modelled; the step to binary64 is bounded per sampled case by the "
            "Coq-Interval certificate (tolerance 2^-32 relative). log-gamma, log-erfc and the regularised incomplete gamma "
            "function are Section variables (their values are logged from the Go run in the correspondence: C13's "
-           "business); normalisation of the Gamma/Beta-normalised families is not reduced further. Vector and matrix "
-           "families and the mixture wrapper are not modelled. Derivative slots are checked only by the hunt (central "
-           "differences).")
+           "business); normalisation is proved for the exponential, Pareto, power-law and geometric families (Laplace: "
+           "limits of the cdf), not for the Gamma/Beta-normalised ones. Vector families (t, normal, ScalarIid, ScalarId) "
+           "are modelled with the inverse and determinant of Sigma entering as logged data (SigmaInv / SigmaDet fields; "
+           "matrixInverse / determinant are other properties' business); skew-normal, the matrix families and the "
+           "mixture wrapper are not modelled. Derivative slots are checked only by the hunt (central differences).")
 
 
 def proposed_findings():
